@@ -44,7 +44,7 @@ var probes = []string{"\x00\x01", "a\x01", "aaa", "abb", "k", "k000", "kz", "\x7
 var scanPrefixes = []string{"", "\x00", "a", "ab", "abc", "b", "k", "k0", "k1", "k4", "\x80", "\xff", "z", "\xff\xff\xff"}
 
 func Run(k *report.Check) {
-	k.Rule = "tables: runs of n keys (n=0..50; the n/2 smallest and n/2 largest) of a 56-key universe (empty, binary, >=0x80, prefix-related keys), tombstone masks exhaustive for n<=8 and single/double beyond, written whole and split with every target size for runs <=12; every universe/probe key looked up, every prefix scanned, again after the descriptor's JSON round trip. WAL: every sequence over put/delete/cut/truncate/rotate+save up to the depth, every legal start marker. non-trivial = distinct (n, tombstone mask, target size) with n>=2, and distinct WAL histories containing a truncate or a second rotate"
+	k.Rule = "tables: runs of n keys (n=0..50; the n/2 smallest and n/2 largest) of a 56-key universe (empty, binary, >=0x80, prefix-related keys), tombstone masks exhaustive for n<=8 and single/double beyond, written whole and split with every target size for runs <=12; every universe/probe key looked up, every prefix scanned, every table's recorded key range exactly [first key held, last key held], again after the descriptor's JSON round trip. WAL: every sequence over put/delete/cut/truncate/rotate+save up to the depth, every legal start marker. non-trivial = distinct (n, tombstone mask, target size) with n>=2, and distinct WAL histories containing a truncate or a second rotate"
 	k.Assumptions = []string{"storage.MemoryFilesystem stands for the file systems; bytes outside the universe not explored", "a WAL start marker is legal when it is >= the largest truncation point and <= the last sequence number (how dkv.DB uses it)"}
 	k.Budget(120, 1200)
 	k.Parts(4)
@@ -108,6 +108,33 @@ func entStr(e kv.Entry) string {
 
 // verifyTables checks lookups and scans over tables that together hold exactly es.
 func verifyTables(c *mc.Ctx, what string, tables []*sst.Table, es []*ent) {
+	// the recorded key range of a table is exactly [first key held, last key held]: lookups are
+	// routed by it (LevelList.Get, ownership checks), so a key outside it is as good as lost
+	for i, t := range tables {
+		var err error
+		var firstKey, lastKey []byte
+		cnt := 0
+		for e := range t.ScanPrefix(nil, &err) {
+			if cnt == 0 {
+				firstKey = slices.Clone(e.Key())
+			}
+			lastKey = slices.Clone(e.Key())
+			cnt++
+			if !t.RangeContainsKey(e.Key()) {
+				c.FailSig("table-range-excludes-held-key", "%s: table %d holds key %q but its recorded range [%q,%q] does not contain it", what, i, e.Key(), t.Document().StartKey, t.Document().EndKey)
+			}
+		}
+		if err != nil {
+			c.Failf("%s: scan of table %d: %v", what, i, err)
+		}
+		if cnt == 0 {
+			continue
+		}
+		doc := t.Document()
+		if !bytes.Equal([]byte(doc.StartKey), firstKey) || !bytes.Equal([]byte(doc.EndKey), lastKey) {
+			c.FailSig("table-range-not-its-contents", "%s: table %d records the key range [%q,%q], it holds [%q..%q]", what, i, doc.StartKey, doc.EndKey, firstKey, lastKey)
+		}
+	}
 	find := func(key string) kv.Entry {
 		var found kv.Entry
 		for _, t := range tables {
